@@ -129,3 +129,28 @@ package parser
 //@   ensures[C04 empty-becomes-any] t == EMPTY_ARRAY || t == EMPTY_MAP ==> fresh(r) && r.Sub == ANY_TYPE && !r.Fixed
 //@   ensures[C04 composite-copied] (t.Name == ARRAY || t.Name == MAP) && t != EMPTY_ARRAY && t != EMPTY_MAP ==> fresh(r) && r.Fixed == t.Fixed && r.Sub != nil && r.Sub.Name == t.Sub.Name
 //@   modifies nothing
+
+// ---- C03/C05: small parser helpers ----
+
+// lookAt never leaves the token slice: positions outside it yield the final (EOF) token, which carries a position.
+//@ func (p *parser) lookAt(pos int) (t *lexer.Token)
+//@   props C03
+//@   requires[tokens-end-with-eof] len(p.tokens) >= 1
+//@   ensures[C03 in-range] 0 <= pos && pos < len(p.tokens) ==> t == p.tokens[pos]
+//@   ensures[C03 past-the-end-is-eof-token] pos < 0 || pos >= len(p.tokens) ==> t == p.tokens[len(p.tokens)-1]
+//@   modifies nothing
+
+// ordinalize builds "1st", "2nd", ... for diagnostics; it must not fail for any argument position.
+//@ func ordinalize(n int) (s string)
+//@   props C03
+//@   requires n >= 0
+//@   modifies nothing
+
+// An if statement always terminates (returns) exactly when it has an else block and every one of its blocks does (C05:
+// a function with a result must return on every path).
+//@ func (i *IfStmt) alwaysTerminates() (r bool)
+//@   props C05
+//@   requires i.IfBlock != nil && i.IfBlock.Block != nil && forall(j, int, 0 <= j && j < len(i.ElseIfBlocks) ==> i.ElseIfBlocks[j] != nil && i.ElseIfBlocks[j].Block != nil)
+//@   ensures[C05 every-branch-returns] r == (i.Else != nil && i.Else.alwaysTerms && i.IfBlock.Block.alwaysTerms && forall(j, int, 0 <= j && j < len(i.ElseIfBlocks) ==> i.ElseIfBlocks[j].Block.alwaysTerms))
+//@   modifies nothing
+//@   loop 1 invariant -1 <= rangeindex && rangeindex < len(i.ElseIfBlocks) && i.Else != nil && i.Else.alwaysTerms && i.IfBlock.Block.alwaysTerms && forall(j, int, 0 <= j && j <= rangeindex ==> i.ElseIfBlocks[j].Block.alwaysTerms)
